@@ -437,3 +437,24 @@ Example ord_zero_nan :
   num_cmp_rs_res (NFloat F_NEG_INF) (NInt (-9223372036854775808)) = Ok Lt /\
   num_cmp_rs_res (NUInt 18446744073709551615) (NFloat F_INF) = Ok Lt.
 Proof. vm_compute. repeat split. Qed.
+
+(* ---------- the IEEE primitives of NumOrd.v against values computed by an independent IEEE-754 implementation
+   (CPython floats, struct.pack): (a, b, a - b) with rounding, cancellation, overflow, subnormals, signed zeros and
+   infinities; (x, trunc x); (x, x as i128) with Rust's saturation ---------- *)
+Example f_sub_examples :
+  forallb (fun t => match t with (a, b, c) => f_sub a b =? c end)
+    [(4609434218613702656, 4607182418800017408, 4602678819172646912); (4591870180066957722, 4599075939470750515, 13819745816549104025); (9214871658872686752, 18438243695727462560, 9218868437227405312); (18438243695727462560, 9214871658872686752, 18442240474082181120); (1, 2, 9223372036854775809); (4845873199050653696, 4607182418800017408, 4845873199050653695); (4845873199050653697, 13830554455654793216, 4845873199050653698); (0, 9223372036854775808, 0); (9223372036854775808, 0, 9223372036854775808); (9223372036854775808, 9223372036854775808, 0); (4613937818241073152, 4613937818241073152, 0); (13837309855095848960, 13837309855095848960, 0); (4846369599423283200, 4602678819172646912, 4846369599423283200); (4607182418800017408, 4368491638549381120, 4607182418800017407); (4607182418800017408, 4363988038922010624, 4607182418800017408); (1, 9223372036854775809, 2); (4503599627370496, 1, 4503599627370495); (9218868437227405312, 4607182418800017408, 9218868437227405312); (4607182418800017408, 9218868437227405312, 18442240474082181120); (18442240474082181120, 13830554455654793216, 18442240474082181120); (17485029721327973432, 7283207964119141687, 17485029721327973432); (6011500591619714867, 15220287784085211640, 6012348562256393273); (16781078052021535861, 3960482443532127989, 16781078052021535861); (348660451904808794, 340251664675567577, 346914128842271076); (1090396360377453094, 10430779633273967791, 1207407596494127690); (10370126428944871513, 10372068547548220841, 1139286403739266020); (10801332806156616911, 914761360679426580, 10801332806156616911); (9009706248826574768, 18223451727416513942, 9011304057502289174); (9973894190648387236, 10531498782278263232, 1308126745423487424); (12072718469115521071, 2835336643070902161, 12073602978750799905); (3465608723044488519, 1797276903956378115, 3465608723044488519); (14278952507665477687, 5059778033158305247, 14286045366148241149); (9808507260218814804, 14337340360533389438, 5113968323678613630); (2904476970784350673, 2896933374897522605, 2901665763721518586); (3316111241534796839, 14385317585936796820, 5161945549082021012); (2253152017886047919, 11476718729720038087, 2257752955003025595); (8279529517580348704, 11233311162323323400, 8279529517580348704); (9045533590711537424, 9035761335972134143, 9044022569937965008); (17215796697752958293, 7778961656703135618, 17215796697752958334); (9588513176929972688, 9596220972075176946, 370422350277622538); (15095954672103411799, 6274150083463332300, 15497522120318108108); (6415362695191109581, 15650318387098804074, 6427788903424389988); (1726541358694932734, 4979500703817309910, 14202872740672085718); (13596660009970032922, 4383396784397155126, 13607967904893399932)]
+  = true.
+Proof. vm_compute. reflexivity. Qed.
+
+Example f_trunc_examples :
+  forallb (fun t => match t with (a, c) => f_trunc a =? c end)
+    [(4609434218613702656, 4607182418800017408); (13832806255468478464, 13830554455654793216); (4606281698874543309, 0); (13829653735729319117, 9223372036854775808); (9223372036854775808, 9223372036854775808); (4841369599423283199, 4841369599423283198); (14064741636278059007, 14064741636278059006); (9094988921128908188, 9094988921128908188); (4683220299150161609, 4683220244930494464); (4890909195324358656, 4890909195324358656); (9218868437227405312, 9218868437227405312); (18442240474082181120, 18442240474082181120); (1, 0); (4607182418800017408, 4607182418800017408); (4611686018427387903, 4607182418800017408); (4616187366254944715, 4613937818241073152); (13836183955189006336, 13835058055282163712)]
+  = true.
+Proof. vm_compute. reflexivity. Qed.
+
+Example f_to_i128_examples :
+  forallb (fun t : Z * Z => match t with (a, c) => (f_to_i128 (Z.to_N a) =? c)%Z end)
+    [(4609434218613702656, 1); (13832806255468478464, -1); (13829653735729319117, 0); (4890909195324358656, 9223372036854775808); (14118784831806504960, -18446744073709551616); (5174635971848699904, 85070591730234615865843651857942052864); (5179139571476070400, 170141183460469231731687303715884105727); (14402511608330846208, -170141183460469231731687303715884105728); (14407015207958216704, -170141183460469231731687303715884105728); (9094988921128908188, 170141183460469231731687303715884105727); (9218868437227405312, 170141183460469231731687303715884105727); (18442240474082181120, -170141183460469231731687303715884105728); (4895412794951729150, 18446744073709547520); (5179139571476070399, 170141183460469212842221372237303250944); (9221120237041090560, 0)]%Z
+  = true.
+Proof. vm_compute. reflexivity. Qed.
